@@ -142,10 +142,37 @@ pub mod verif {
             unsafe { Waker::from_raw(RawWaker::new(c as *const WakeCell as *const (), &VT)) }
         }
 
+        // Two wakers with the SAME data pointer and DIFFERENT vtables (executors with static per-task vtables, or one
+        // context object with several wake strategies): `will_wake` is false between them although the data pointers agree.
+        pub struct DualCell { pub a: Cell<u32>, pub b: Cell<u32> }
+        impl DualCell { pub const fn new() -> Self { DualCell { a: Cell::new(0), b: Cell::new(0) } } }
+        unsafe fn da_clone(p: *const ()) -> RawWaker { RawWaker::new(p, &VT_A) }
+        unsafe fn db_clone(p: *const ()) -> RawWaker { RawWaker::new(p, &VT_B) }
+        unsafe fn da_wake(p: *const ()) { let c = &*(p as *const DualCell); c.a.set(c.a.get().wrapping_add(1)); }
+        unsafe fn db_wake(p: *const ()) { let c = &*(p as *const DualCell); c.b.set(c.b.get().wrapping_add(1)); }
+        static VT_A: RawWakerVTable = RawWakerVTable::new(da_clone, da_wake, da_wake, w_drop);
+        static VT_B: RawWakerVTable = RawWakerVTable::new(db_clone, db_wake, db_wake, w_drop);
+        pub fn mk_waker_a(c: &DualCell) -> Waker { unsafe { Waker::from_raw(RawWaker::new(c as *const DualCell as *const (), &VT_A)) } }
+        pub fn mk_waker_b(c: &DualCell) -> Waker { unsafe { Waker::from_raw(RawWaker::new(c as *const DualCell as *const (), &VT_B)) } }
+        /// Polls `f` with waker A and then with waker B of one DualCell; returns false if one of the polls completed.
+        pub fn dual_repoll<F: core::future::Future>(f: core::pin::Pin<&mut F>, c: &DualCell) -> bool {
+            let wa = core::mem::ManuallyDrop::new(mk_waker_a(c));
+            let wb = core::mem::ManuallyDrop::new(mk_waker_b(c));
+            let mut f = f;
+            let r1 = { let mut cx = core::task::Context::from_waker(&wa); f.as_mut().poll(&mut cx) };
+            if let core::task::Poll::Ready(v) = r1 { core::mem::forget(v); return false; }
+            let r2 = { let mut cx = core::task::Context::from_waker(&wb); f.as_mut().poll(&mut cx) };
+            if let core::task::Poll::Ready(v) = r2 { core::mem::forget(v); return false; }
+            true
+        }
+
         // ---------------------------------------------------------------
         // A raw lock that checks the locking discipline of the Sync flavours:
         // lock() on a held lock is a self-deadlock with a real mutex.
         // ---------------------------------------------------------------
+        /// Contention model for the thread-safe flavours: while set, the next try_lock() on a CheckLock fails once, as if
+        /// another thread were inside the critical section right now (lock() would simply wait for it, so it is unaffected).
+        pub static CONTENDED: AtomicU8 = AtomicU8::new(0);
         pub struct CheckLock(Cell<bool>);
         unsafe impl Sync for CheckLock {}
         unsafe impl Send for CheckLock {}
@@ -157,6 +184,10 @@ pub mod verif {
                 self.0.set(true);
             }
             fn try_lock(&self) -> bool {
+                if CONTENDED.load(Ordering::Relaxed) != 0 {
+                    CONTENDED.store(0, Ordering::Relaxed);
+                    return false;
+                }
                 if self.0.get() {
                     false
                 } else {
@@ -184,6 +215,14 @@ pub mod verif {
         /// zero-sized payload (VecDeque reports capacity usize::MAX for zero-sized element types)
         #[derive(Debug)]
         pub struct ZVal;
+        pub static ZVAL_DROPS: AtomicU32 = AtomicU32::new(0);
+        impl Drop for ZVal {
+            fn drop(&mut self) {
+                let v = ZVAL_DROPS.load(Ordering::Relaxed);
+                ZVAL_DROPS.store(v.wrapping_add(1), Ordering::Relaxed);
+            }
+        }
+        pub fn zval_drops() -> u32 { ZVAL_DROPS.load(Ordering::Relaxed) }
         #[derive(Debug, PartialEq, Eq)]
         pub struct Tag(pub u8);
         impl Drop for Tag {
